@@ -31,6 +31,26 @@ def close(a, b, rtol=1e-9, afloor=1e-11):
     return err <= tol, err, scale
 
 
+def close_single(a, b, rtol=5e-5, afloor=3e-7):
+    """Single-precision agreement, entrywise: max|a-b| <= rtol*max|b| + afloor.
+
+    The absolute floor is float32 resolution of the intermediate sums of a BEM entry on O(1)-sized grids
+    (terms of size ~1e-2..1 accumulated in float32): an entry that is small through cancellation cannot be
+    expected to carry a relative accuracy of 1e-7.
+    """
+    a = np.asarray(a)
+    b = np.asarray(b)
+    if a.shape != b.shape:
+        return False, float("inf"), 1.0
+    if a.size == 0:
+        return True, 0.0, 0.0
+    if not (np.all(np.isfinite(a)) and np.all(np.isfinite(b))):
+        return close(a, b, rtol=rtol, afloor=afloor)
+    err = float(np.max(np.abs(a - b)))
+    scale = float(max(np.max(np.abs(a)), np.max(np.abs(b))))
+    return err <= rtol * scale + afloor, err, scale
+
+
 def seeded_vector(n, seed, complex_=False):
     rs = np.random.RandomState(seed % (2**32))
     x = rs.uniform(-1, 1, n)
